@@ -395,6 +395,9 @@ TABLE += [
      nth_call("min", 1), HZ_ENV, "(min bs n)"),
     ("hzCardTorch", "n bs", "example_based/datasets_operations/harmonize.py", None, "harmonize_datasets",
      nth_call("ceil", 1), HZ_ENV, "(-(Int.fdiv (-n) bs))"),
+    # torch DataLoader branch: the nominal batch size clamped to the size of the first batch the loader yields
+    ("hzBatchLoader", "bs n", "example_based/datasets_operations/harmonize.py", None, "harmonize_datasets",
+     nth_call("min", 2), dict(HZ_ENV, **{"tf.shape(next(iter(cases_dataset)))[0].numpy()": "n"}), "(min bs n)"),
     ("flatIndex", "i0 bs i1", "example_based/prototypes.py", "Prototypes", "format_search_output",
      assign_value("flatten_indices"), FLAT_ENV, "((i0 * bs) + i1)"),
 ]
